@@ -374,19 +374,10 @@ def classify(call):
     if k == "CMapWithKey" and vals and vals[0][0] == "fobj":
         if any(not h and x[0] == "bomb" for _n, h, x in vals[0][1]):
             return "C13-mapwithkey-forces-values"
-    if k in ("CKeysValues", "CKeysValuesAll") and vals and vals[0][0] == "fobj":
-        inc = k == "CKeysValuesAll"
-        if any((inc or not h) and x[0] == "bomb" for _n, h, x in vals[0][1]):
-            return "C13-keysvalues-element-forces-value"
     if k == "CRemoveKey" and call.selfdeps():
         return "C13-removekey-rebinds-self"
-    if k == "CMergePatch":
-        hid = any(has_kind(v, "hidden") for v in vals)
-        bomb = any(has_kind(v, "bomb") for v in vals)
-        if hid and not bomb:
-            return "C13-mergepatch-reads-hidden-fields"
-        if bomb and not hid:
-            return "C13-mergepatch-eager"
+    if k == "CMergePatch" and any(has_kind(v, "bomb") for v in vals):
+        return "C13-mergepatch-eager"
     if k in ("CEquals", "CAssertEqual") and call.args[0] and vals[0][0] in ("arr", "fobj") and (
             has_kind(vals[0], "bomb") or has_kind(vals[0], "fun")):
         return "C13-equals-same-object-shortcut"
@@ -418,9 +409,7 @@ NULL = ("null",)
 # the witnesses of the `_refuted` theorems (Pins.v pins the same terms): each must still reproduce
 WITNESSES = {
     "C13-mapwithkey-forces-values": Call("CMapWithKey", "MKey", O(("a", BOMB))),
-    "C13-keysvalues-element-forces-value": Call("CKeysValues", O(("a", BOMB))),
     "C13-removekey-rebinds-self": Call("CRemoveKey", O(("a", N(1)), ("b", ("self", "a"))), "a"),
-    "C13-mergepatch-reads-hidden-fields": Call("CMergePatch", O(("a", N(1)), ("b", N(2))), O(("a", "::", NULL))),
     "C13-mergepatch-eager": Call("CMergePatch", O(("a", BOMB), ("b", N(2))), O(("a", N(3)))),
     "C13-equals-same-object-shortcut": Call("CEquals", True, ("arr", [BOMB]), ("arr", [BOMB])),
 }
@@ -554,9 +543,6 @@ def enumerate_cases(run):
             if isinstance(a, tuple) and a and a[0] in ("obj", "arr") and not try_flatten(a):
                 return
         c = Call(kind, *args, **opt)
-        if kind == "CMergePatch" and any(has_kind(v, "hidden") for v in c.values()) and any(
-                has_kind(v, "bomb") for v in c.values()):
-            return  # the two mergePatch findings are classified on disjoint input classes
         cases.append(c)
 
     ALLFL = {"hidden", "bomb", "fun", "chain"}
@@ -570,7 +556,7 @@ def enumerate_cases(run):
             add(k, bad)
     for h in (True, False):
         add("CFieldsEx", o1, h)
-    for key in ["a", "b", "c", "", "zz", "￿"]:
+    for key in (["a", "b", "c", "", "zz", "￿"] if thorough else ["a", "c", "", "zz"]):
         add("CHas", o1, key)
         add("CHasAll", o1, key)
         for h in (True, False):
@@ -580,6 +566,12 @@ def enumerate_cases(run):
                 add("CGet", o1, key, d, h)
     for w in WITNESSES.values():
         cases.append(w)
+    # regression probes of the two defects fixed in c053b92 / 1809f60
+    add("CKeysValues", O(("a", BOMB)))
+    add("CKeysValuesAll", O(("a", "::", BOMB), ("b", N(1))))
+    add("CMergePatch", O(("a", N(1)), ("b", N(2))), O(("a", "::", NULL)))
+    add("CMergePatch", O(("a", N(1)), ("b", N(2))), O(("a", "::", O(("x", N(1))))))
+    add("CMergePatch", O(("a", "::", O(("y", N(1)))), ("b", N(2))), O(("a", O(("x", N(1))))))
     empt = [NULL, ("arr", []), ("obj", [[]]), ("arr", [NULL]), ("arr", [("arr", [])]), ("obj", [[("a", ":", False, NULL)]]),
             ("obj", [[("a", "::", False, N(1))]]), ("arr", [("obj", [[("a", "::", False, N(1))]])]), N(0), S(""), ("bool", False),
             ("fun", 1, 0), ("arr", [("fun", 0, 1)]), ("arr", [("arr", [("arr", [NULL])])]),
@@ -588,8 +580,9 @@ def enumerate_cases(run):
         add("CPrune", v)
         add("CLength", v)
         add("CType", v)
-        for t, _ in TYS:
-            add("CIs", t, v)
+        for j, (t, _) in enumerate(TYS):
+            if thorough or v in empt[:6] or (j + len(cases)) % 3 == 0:
+                add("CIs", t, v)
     for s in ["", "a", "é", "\U0001f600", "a\U0001f600é", "é", "￿\U00010000"]:
         add("CLength", S(s))
     for nreq in range(4):
@@ -603,8 +596,10 @@ def enumerate_cases(run):
     for bad in (N(1), NULL, S("true"), BOMB, ("arr", [])):
         add("CXor", bad, ("bool", True))
         add("CXnor", ("bool", False), bad)
-    prims = [NULL, ("bool", True), ("bool", False), N(0), N(1), N(-1), S(""), S("a"), S("1"), S("null"), ("arr", []),
-             ("arr", [N(1)]), ("obj", [[]]), ("obj", [[("a", ":", False, N(1))]]), ("fun", 1, 0), ("fun", 0, 0)]
+    prims = [NULL, ("bool", True), ("bool", False), N(0), N(1), S(""), S("1"), ("arr", []),
+             ("obj", [[]]), ("fun", 1, 0)]
+    if thorough:
+        prims += [N(-1), S("a"), S("null"), ("arr", [N(1)]), ("obj", [[("a", ":", False, N(1))]]), ("fun", 0, 0)]
     for a in prims:
         for b in prims:
             add("CPrimEq", a, b)
@@ -623,7 +618,7 @@ def enumerate_cases(run):
     for t, p in rfc:
         add("CMergePatch", t, p)
     # ---- random part
-    for i in range(50 * mult):
+    for i in range(28 * mult):
         o = g.obj(2, ALLFL, few=r.chance(0.5))
         k = r.choice(list(LISTING))
         add(k, o)
@@ -633,13 +628,13 @@ def enumerate_cases(run):
         add(r.choice(["CHas", "CHasAll"]), o, key)
         add("CHasEx", o, g.key(), r.chance(0.5))
         add("CLength", o)
-    for i in range(90 * mult):
+    for i in range(45 * mult):
         o = g.obj(2, ALLFL, few=True)
         add("CGet", o, g.key(True), r.choice([None, None, N(5), BOMB, ("arr", [BOMB])]), r.choice([None, True, False]))
-    for i in range(60 * mult):
+    for i in range(40 * mult):
         o = g.obj(2, ALLFL if i % 3 else {"hidden", "fun", "chain"}, few=r.chance(0.5))
         add("CMapWithKey", r.choice(list(MAPFN_JS)), o)
-    for i in range(80 * mult):
+    for i in range(50 * mult):
         fl = ALLFL if i % 4 else {"hidden", "chain"}
         o = g.obj(2, fl, few=True)
         key = g.key(True)
@@ -651,22 +646,23 @@ def enumerate_cases(run):
                 if r.chance(0.6):
                     key = tgt
         add("CRemoveKey", o, key)
-    for i in range(220 * mult):
-        fl = [{"empties"}, {"empties"}, {"empties", "fun"}, {"hidden", "empties", "chain"}, {"bomb", "empties"}][i % 5]
+    for i in range(132 * mult):
+        fl = [{"empties"}, {"empties"}, {"empties", "fun"}, {"hidden", "empties", "chain"}, {"bomb", "empties"},
+              {"bomb", "hidden", "empties", "chain"}][i % 6]
         t = g.value(3, fl) if r.chance(0.15) else g.obj(3, fl, few=True)
         p = g.value(3, fl) if r.chance(0.12) else g.obj(3, fl, few=True)
         if r.chance(0.25):
             p = g.mutate(t, hide="hidden" in fl)
         add("CMergePatch", t, p)
-    for i in range(120 * mult):
+    for i in range(60 * mult):
         fl = [{"empties"}, {"empties", "hidden", "chain"}, {"empties", "fun"}, {"empties", "bomb", "hidden"}][i % 4]
         add("CPrune", g.value(4, fl))
-    for i in range(60 * mult):
+    for i in range(30 * mult):
         v = g.value(2, ALLFL)
         add("CType", v)
         add("CLength", v)
         add("CIs", r.choice(TYS)[0], v)
-    for i in range(180 * mult):
+    for i in range(100 * mult):
         fl = [set(), {"hidden", "chain"}, {"fun"}, {"bomb", "hidden", "chain"}][i % 4]
         a = g.value(3, fl)
         b = g.mutate(a) if r.chance(0.8) else g.value(3, fl)
@@ -681,7 +677,7 @@ def enumerate_cases(run):
 
 def vis_cases(run):
     g = Gen(run.rng.fork("vis"))
-    n = 1500 if run.tier == "thorough" else 120
+    n = 1500 if run.tier == "thorough" else 80
     out = [("obj", [[("a", ":", False, N(1))], [("a", "::", False, N(2))], [("a", ":", False, N(3))]]),
            ("obj", [[("a", "::", False, N(1))], [("a", ":::", False, N(2))], [("a", ":", False, N(3))]]),
            ("obj", [[("a", ":::", False, N(1))], [("a", "::", False, N(2))], [("a", ":", False, N(3))]]),
@@ -698,8 +694,10 @@ def check(run, terrs):
     if not binary:
         run.obligation("harness.build", False, err)
         return core.conclude(run, False, err, [], [])
-    failures, model_diffs = correspond(run, binary, enumerate_cases(run))
-    f2, d2 = correspond_visibility(run, binary, vis_cases(run))
+    uniq, chains = dedupe(enumerate_cases(run)), vis_cases(run)
+    m1, m2 = eval_models(run, uniq, chains)
+    failures, model_diffs = correspond(run, binary, uniq, m1)
+    f2, d2 = correspond_visibility(run, binary, chains, m2)
     failures += f2
     model_diffs += d2
     failures.sort(key=lambda f: (bool(f.get("known")), len(f.get("case", {}).get("jsonnet", ""))))
@@ -725,23 +723,34 @@ def search(run, binary):
     finally:
         run.tier = old
     # bounded (about 5 minutes): every 4th call of the thorough scope, all function kinds kept
-    cases = cases[run.seed % 4::4][:4000]
-    f, _ = correspond(run, binary, cases, witnesses=False)
-    f2, _ = correspond_visibility(run, binary, vc)
+    uniq = dedupe(cases[run.seed % 4::4][:4000])
+    m1, m2 = eval_models(run, uniq, vc)
+    f, _ = correspond(run, binary, uniq, m1, witnesses=False)
+    f2, _ = correspond_visibility(run, binary, vc, m2)
     return f + f2
 
 
-def correspond(run, binary, cases, witnesses=True):
-    failures, model_diffs = [], []
+def dedupe(cases):
     seen, uniq = set(), []
     for c in cases:
         k = c.jsonnet()
         if k not in seen:
             seen.add(k)
             uniq.append((c, k))
+    return uniq
+
+
+def eval_models(run, uniq, chains):
+    """one sharded coqc batch for the calls and the visibility chains"""
+    exprs = [f"run_case ({c.coq()})" for c, _ in uniq] + [vis_expr(o) for o in chains]
+    res = core.coq_eval(IMPORTS, exprs)
+    run.log(f"model evaluated ({len(uniq)} calls, {len(chains)} chains)")
+    return res[:len(uniq)], res[len(uniq):]
+
+
+def correspond(run, binary, uniq, model, witnesses=True):
+    failures, model_diffs = [], []
     run.log(f"{len(uniq)} distinct calls")
-    model = core.coq_eval(IMPORTS, [f"run_case ({c.coq()})" for c, _ in uniq])
-    run.log("model evaluated")
     outs = core.run_harness(binary, "lazy", [{"code": k} for _, k in uniq])
     run.log("harness done")
     wit_by_js = {w.jsonnet(): fid for fid, w in WITNESSES.items()}
@@ -797,21 +806,23 @@ def correspond(run, binary, cases, witnesses=True):
     return failures, model_diffs
 
 
-def correspond_visibility(run, binary, chains):
+def vis_expr(o):
+    ds = "[" + ";".join(f"({cq_str(n)},{ {':': 'VisNormal', '::': 'VisHidden', ':::': 'VisUnhide'}[v]})"
+                        for n, v in decls_of(o)) + "]"
+    ks = "[" + ";".join(cq_str(k) for k in FEW) + "]"
+    return (f"(fields_impl {ds} false, fields_impl {ds} true, "
+            f"map (fun k => (has_field_impl k {ds} false, has_field_impl k {ds} true)) {ks}, "
+            f"map (fun k => vis_spec k {ds}) {ks})")
+
+
+def correspond_visibility(run, binary, chains, model):
     """visibility of a chain: language rule (generator's flatten) vs both Coq kernels vs the code"""
     failures, model_diffs = [], []
-    exprs, reqs = [], []
+    reqs = []
     for o in chains:
-        ds = "[" + ";".join(f"({cq_str(n)},{ {':': 'VisNormal', '::': 'VisHidden', ':::': 'VisUnhide'}[v]})"
-                            for n, v in decls_of(o)) + "]"
-        ks = "[" + ";".join(cq_str(k) for k in FEW) + "]"
-        exprs.append(f"(fields_impl {ds} false, fields_impl {ds} true, "
-                     f"map (fun k => (has_field_impl k {ds} false, has_field_impl k {ds} true)) {ks}, "
-                     f"map (fun k => vis_spec k {ds}) {ks})")
         src = js(o)
         reqs.append({"code": f"local O = {src}; [std.objectFields(O), std.objectFieldsAll(O), "
                              f"[[std.objectHas(O, k), std.objectHasAll(O, k)] for k in {json.dumps(FEW)}], std.length(O)]"})
-    model = core.coq_eval(IMPORTS, exprs)
     outs = core.run_harness(binary, "eval", reqs)
     for o, m, a, rq in zip(chains, model, outs, reqs):
         run.count("visibility-chains")
